@@ -132,8 +132,8 @@ fn c04_logistic_scalar_ix2_f32() {
 
 // ---------------------------------------------------------------- bounded: initial_params present
 // `initial_params` is an array, the guard iterates over it: concrete small shapes, symbolic values
-// (every bit pattern incl. NaN/inf), symbolic scalar fields.  $mk builds the array from [F; 3] and a
-// length n <= 3; `$n` elements are used.
+// (every bit pattern incl. NaN/inf), symbolic scalar fields.  `$arr` is the array built from the first
+// `$n` (concrete, <= 3) elements of the symbolic `$vals: [F; 3]`.
 macro_rules! c04_logistic_init_body {
     ($F:ty, $D:ty, $n:expr, $arr:expr, $vals:expr) => {{
         let (alpha, gt): ($F, $F) = (kani::any(), kani::any());
@@ -194,76 +194,226 @@ macro_rules! c04_logistic_init_body {
     }};
 }
 
-// @unit name=logistic_init_ix1_f64 class=bounded tier=quick bound="len<=3" fns=linfa_logistic::LogisticRegressionParams::check_ref,linfa_logistic::LogisticRegressionParams::check
-#[kani::proof]
-#[kani::unwind(5)]
-#[kani::stub(alloc::fmt::format, fmt_stub)]
-fn c04_logistic_init_ix1_f64() {
-    let vals: [f64; 3] = kani::any();
-    let n: usize = kani::any();
-    kani::assume(n <= 3);
-    let arr = Array1::from_vec(vals[..n].to_vec());
-    let (in_range, alpha_ok, gt_ok, init_ok) = c04_logistic_init_body!(f64, Ix1, n, arr, vals);
-    kani::cover!(in_range && n == 3);
-    kani::cover!(in_range && n == 0); // empty array: vacuously finite
-    kani::cover!(!in_range);
-    kani::cover!(alpha_ok && gt_ok && !init_ok && n == 1); // only the single initial parameter bad
-    kani::cover!(alpha_ok && gt_ok && n == 3 && vals[0].is_finite() && vals[1].is_finite() && vals[2].is_nan()); // last one NaN
-    kani::cover!(alpha_ok && gt_ok && n == 3 && vals[0] == f64::NEG_INFINITY && vals[1].is_finite() && vals[2].is_finite()); // first one -inf
-    kani::cover!(alpha_ok && gt_ok && n == 2 && vals[0].is_finite() && vals[1].is_finite() && vals[2].is_nan()); // NaN beyond the length is irrelevant
+// One harness per concrete length 0..=3 (measured: a symbolic length n <= 3 costs 150-580 s per harness,
+// all four lengths one after the other in one harness 90-210 s, one concrete length alone 5-15 s).
+macro_rules! c04_logistic_init_ix1_n {
+    ($F:ty, $n:expr) => {{
+        let vals: [$F; 3] = kani::any();
+        let arr = Array1::from_vec(vals[..$n].to_vec());
+        let (in_range, alpha_ok, gt_ok, init_ok) = c04_logistic_init_body!($F, Ix1, $n, arr, vals);
+        (in_range, alpha_ok, gt_ok, init_ok, vals)
+    }};
+}
+// MultiLogisticRegression: 2-d initial parameters of shape $shape with $n = rows*cols elements
+macro_rules! c04_logistic_init_ix2_n {
+    ($F:ty, $n:expr, $shape:expr) => {{
+        let vals: [$F; 3] = kani::any();
+        let arr = Array2::from_shape_vec($shape, vals[..$n].to_vec()).unwrap();
+        let (in_range, alpha_ok, gt_ok, init_ok) = c04_logistic_init_body!($F, Ix2, $n, arr, vals);
+        (in_range, alpha_ok, gt_ok, init_ok, vals)
+    }};
 }
 
-// @unit name=logistic_init_ix1_f32 class=bounded tier=quick bound="len<=3" fns=linfa_logistic::LogisticRegressionParams::check_ref,linfa_logistic::LogisticRegressionParams::check
+// @unit name=logistic_init_ix1_n0_f64 class=bounded tier=quick bound="len=0" fns=linfa_logistic::LogisticRegressionParams::check_ref,linfa_logistic::LogisticRegressionParams::check
 #[kani::proof]
 #[kani::unwind(5)]
 #[kani::stub(alloc::fmt::format, fmt_stub)]
-fn c04_logistic_init_ix1_f32() {
-    let vals: [f32; 3] = kani::any();
-    let n: usize = kani::any();
-    kani::assume(n <= 3);
-    let arr = Array1::from_vec(vals[..n].to_vec());
-    let (in_range, alpha_ok, gt_ok, init_ok) = c04_logistic_init_body!(f32, Ix1, n, arr, vals);
-    kani::cover!(in_range && n == 3);
-    kani::cover!(in_range && n == 0);
+fn c04_logistic_init_ix1_n0_f64() {
+    let (in_range, a, g, init_ok, _) = c04_logistic_init_ix1_n!(f64, 0);
+    assert!(init_ok); // empty array: vacuously finite
+    kani::cover!(in_range);
     kani::cover!(!in_range);
-    kani::cover!(alpha_ok && gt_ok && !init_ok && n == 1);
-    kani::cover!(alpha_ok && gt_ok && n == 3 && vals[0].is_finite() && vals[1].is_finite() && vals[2].is_nan());
+    kani::cover!(a && !g);
 }
 
-// MultiLogisticRegression: 2-d initial parameters, shapes (n, 1) and (1, n), n <= 3
-// @unit name=logistic_init_ix2_f64 class=bounded tier=quick bound="rows*cols<=3" fns=linfa_logistic::LogisticRegressionParams::check_ref,linfa_logistic::LogisticRegressionParams::check
+// @unit name=logistic_init_ix1_n1_f64 class=bounded tier=quick bound="len=1" fns=linfa_logistic::LogisticRegressionParams::check_ref,linfa_logistic::LogisticRegressionParams::check
 #[kani::proof]
 #[kani::unwind(5)]
 #[kani::stub(alloc::fmt::format, fmt_stub)]
-fn c04_logistic_init_ix2_f64() {
-    let vals: [f64; 3] = kani::any();
-    let n: usize = kani::any();
-    let column: bool = kani::any();
-    kani::assume(1 <= n && n <= 3);
-    let shape = if column { (n, 1) } else { (1, n) };
-    let arr = Array2::from_shape_vec(shape, vals[..n].to_vec()).unwrap();
-    let (in_range, alpha_ok, gt_ok, init_ok) = c04_logistic_init_body!(f64, Ix2, n, arr, vals);
-    kani::cover!(in_range && n == 3 && column);
-    kani::cover!(in_range && n == 3 && !column);
-    kani::cover!(!in_range);
-    kani::cover!(alpha_ok && gt_ok && !init_ok && n == 1);
-    kani::cover!(alpha_ok && gt_ok && n == 3 && vals[0].is_finite() && vals[1].is_finite() && vals[2] == f64::INFINITY);
+fn c04_logistic_init_ix1_n1_f64() {
+    let (in_range, a, g, init_ok, v) = c04_logistic_init_ix1_n!(f64, 1);
+    kani::cover!(in_range);
+    kani::cover!(a && g && !init_ok); // only the single initial parameter bad
+    kani::cover!(a && g && v[0] == f64::NEG_INFINITY);
+    kani::cover!(in_range && v[1].is_nan() && v[2].is_nan()); // values beyond the length are irrelevant
 }
 
-// @unit name=logistic_init_ix2_f32 class=bounded tier=quick bound="rows*cols<=3" fns=linfa_logistic::LogisticRegressionParams::check_ref,linfa_logistic::LogisticRegressionParams::check
+// @unit name=logistic_init_ix1_n2_f64 class=bounded tier=quick bound="len=2" fns=linfa_logistic::LogisticRegressionParams::check_ref,linfa_logistic::LogisticRegressionParams::check
 #[kani::proof]
 #[kani::unwind(5)]
 #[kani::stub(alloc::fmt::format, fmt_stub)]
-fn c04_logistic_init_ix2_f32() {
-    let vals: [f32; 3] = kani::any();
-    let n: usize = kani::any();
-    let column: bool = kani::any();
-    kani::assume(1 <= n && n <= 3);
-    let shape = if column { (n, 1) } else { (1, n) };
-    let arr = Array2::from_shape_vec(shape, vals[..n].to_vec()).unwrap();
-    let (in_range, alpha_ok, gt_ok, init_ok) = c04_logistic_init_body!(f32, Ix2, n, arr, vals);
-    kani::cover!(in_range && n == 3 && column);
-    kani::cover!(in_range && n == 3 && !column);
+fn c04_logistic_init_ix1_n2_f64() {
+    let (in_range, a, g, init_ok, v) = c04_logistic_init_ix1_n!(f64, 2);
+    kani::cover!(in_range && v[2].is_nan()); // NaN beyond the length is irrelevant
+    kani::cover!(a && g && !init_ok && v[0].is_finite() && v[1] == f64::INFINITY); // only the last one bad
+    kani::cover!(a && g && !init_ok && v[0].is_nan() && v[1].is_finite()); // only the first one bad
+}
+
+// @unit name=logistic_init_ix1_n3_f64 class=bounded tier=quick bound="len=3" fns=linfa_logistic::LogisticRegressionParams::check_ref,linfa_logistic::LogisticRegressionParams::check
+#[kani::proof]
+#[kani::unwind(5)]
+#[kani::stub(alloc::fmt::format, fmt_stub)]
+fn c04_logistic_init_ix1_n3_f64() {
+    let (in_range, a, g, init_ok, v) = c04_logistic_init_ix1_n!(f64, 3);
+    kani::cover!(in_range);
     kani::cover!(!in_range);
-    kani::cover!(alpha_ok && gt_ok && !init_ok && n == 1);
+    kani::cover!(a && g && !init_ok && v[0].is_finite() && v[1].is_finite() && v[2].is_nan()); // last one NaN
+    kani::cover!(a && g && !init_ok && v[0] == f64::NEG_INFINITY && v[1].is_finite() && v[2].is_finite()); // first one -inf
+    kani::cover!(a && g && !init_ok && v[0].is_finite() && v[1] == f64::INFINITY && v[2].is_finite()); // middle one +inf
+    kani::cover!(!a && g && init_ok); // only alpha bad
+    kani::cover!(a && !g && init_ok); // only gradient_tolerance bad
+}
+
+// @unit name=logistic_init_ix1_n0_f32 class=bounded tier=quick bound="len=0" fns=linfa_logistic::LogisticRegressionParams::check_ref,linfa_logistic::LogisticRegressionParams::check
+#[kani::proof]
+#[kani::unwind(5)]
+#[kani::stub(alloc::fmt::format, fmt_stub)]
+fn c04_logistic_init_ix1_n0_f32() {
+    let (in_range, a, g, init_ok, _) = c04_logistic_init_ix1_n!(f32, 0);
+    assert!(init_ok); // empty array: vacuously finite
+    kani::cover!(in_range);
+    kani::cover!(!in_range);
+    kani::cover!(a && !g);
+}
+
+// @unit name=logistic_init_ix1_n1_f32 class=bounded tier=quick bound="len=1" fns=linfa_logistic::LogisticRegressionParams::check_ref,linfa_logistic::LogisticRegressionParams::check
+#[kani::proof]
+#[kani::unwind(5)]
+#[kani::stub(alloc::fmt::format, fmt_stub)]
+fn c04_logistic_init_ix1_n1_f32() {
+    let (in_range, a, g, init_ok, v) = c04_logistic_init_ix1_n!(f32, 1);
+    kani::cover!(in_range);
+    kani::cover!(a && g && !init_ok); // only the single initial parameter bad
+    kani::cover!(a && g && v[0] == f32::NEG_INFINITY);
+    kani::cover!(in_range && v[1].is_nan() && v[2].is_nan()); // values beyond the length are irrelevant
+}
+
+// @unit name=logistic_init_ix1_n2_f32 class=bounded tier=quick bound="len=2" fns=linfa_logistic::LogisticRegressionParams::check_ref,linfa_logistic::LogisticRegressionParams::check
+#[kani::proof]
+#[kani::unwind(5)]
+#[kani::stub(alloc::fmt::format, fmt_stub)]
+fn c04_logistic_init_ix1_n2_f32() {
+    let (in_range, a, g, init_ok, v) = c04_logistic_init_ix1_n!(f32, 2);
+    kani::cover!(in_range && v[2].is_nan()); // NaN beyond the length is irrelevant
+    kani::cover!(a && g && !init_ok && v[0].is_finite() && v[1] == f32::INFINITY); // only the last one bad
+    kani::cover!(a && g && !init_ok && v[0].is_nan() && v[1].is_finite()); // only the first one bad
+}
+
+// @unit name=logistic_init_ix1_n3_f32 class=bounded tier=quick bound="len=3" fns=linfa_logistic::LogisticRegressionParams::check_ref,linfa_logistic::LogisticRegressionParams::check
+#[kani::proof]
+#[kani::unwind(5)]
+#[kani::stub(alloc::fmt::format, fmt_stub)]
+fn c04_logistic_init_ix1_n3_f32() {
+    let (in_range, a, g, init_ok, v) = c04_logistic_init_ix1_n!(f32, 3);
+    kani::cover!(in_range);
+    kani::cover!(!in_range);
+    kani::cover!(a && g && !init_ok && v[0].is_finite() && v[1].is_finite() && v[2].is_nan()); // last one NaN
+    kani::cover!(a && g && !init_ok && v[0] == f32::NEG_INFINITY && v[1].is_finite() && v[2].is_finite()); // first one -inf
+    kani::cover!(a && g && !init_ok && v[0].is_finite() && v[1] == f32::INFINITY && v[2].is_finite()); // middle one +inf
+    kani::cover!(!a && g && init_ok); // only alpha bad
+    kani::cover!(a && !g && init_ok); // only gradient_tolerance bad
+}
+
+// @unit name=logistic_init_ix2_1x1_f64 class=bounded tier=quick bound="shape=1x1" fns=linfa_logistic::LogisticRegressionParams::check_ref,linfa_logistic::LogisticRegressionParams::check
+#[kani::proof]
+#[kani::unwind(5)]
+#[kani::stub(alloc::fmt::format, fmt_stub)]
+fn c04_logistic_init_ix2_1x1_f64() {
+    let (in_range, a, g, init_ok, v) = c04_logistic_init_ix2_n!(f64, 1, (1, 1));
+    kani::cover!(in_range);
+    kani::cover!(!in_range);
+    kani::cover!(a && g && !init_ok && true && v[0].is_nan()); // only the last element bad
+    kani::cover!(a && g && !init_ok && v[0] == f64::INFINITY); // first element +inf
+    kani::cover!(!a && g && init_ok); // only alpha bad
+}
+
+// @unit name=logistic_init_ix2_2x1_f64 class=bounded tier=quick bound="shape=2x1" fns=linfa_logistic::LogisticRegressionParams::check_ref,linfa_logistic::LogisticRegressionParams::check
+#[kani::proof]
+#[kani::unwind(5)]
+#[kani::stub(alloc::fmt::format, fmt_stub)]
+fn c04_logistic_init_ix2_2x1_f64() {
+    let (in_range, a, g, init_ok, v) = c04_logistic_init_ix2_n!(f64, 2, (2, 1));
+    kani::cover!(in_range);
+    kani::cover!(!in_range);
+    kani::cover!(a && g && !init_ok && v[0].is_finite() && v[1].is_nan()); // only the last element bad
+    kani::cover!(a && g && !init_ok && v[0] == f64::INFINITY); // first element +inf
+    kani::cover!(!a && g && init_ok); // only alpha bad
+}
+
+// @unit name=logistic_init_ix2_3x1_f64 class=bounded tier=quick bound="shape=3x1" fns=linfa_logistic::LogisticRegressionParams::check_ref,linfa_logistic::LogisticRegressionParams::check
+#[kani::proof]
+#[kani::unwind(5)]
+#[kani::stub(alloc::fmt::format, fmt_stub)]
+fn c04_logistic_init_ix2_3x1_f64() {
+    let (in_range, a, g, init_ok, v) = c04_logistic_init_ix2_n!(f64, 3, (3, 1));
+    kani::cover!(in_range);
+    kani::cover!(!in_range);
+    kani::cover!(a && g && !init_ok && v[0].is_finite() && v[1].is_finite() && v[2].is_nan()); // only the last element bad
+    kani::cover!(a && g && !init_ok && v[0] == f64::INFINITY); // first element +inf
+    kani::cover!(!a && g && init_ok); // only alpha bad
+}
+
+// @unit name=logistic_init_ix2_1x3_f64 class=bounded tier=quick bound="shape=1x3" fns=linfa_logistic::LogisticRegressionParams::check_ref,linfa_logistic::LogisticRegressionParams::check
+#[kani::proof]
+#[kani::unwind(5)]
+#[kani::stub(alloc::fmt::format, fmt_stub)]
+fn c04_logistic_init_ix2_1x3_f64() {
+    let (in_range, a, g, init_ok, v) = c04_logistic_init_ix2_n!(f64, 3, (1, 3));
+    kani::cover!(in_range);
+    kani::cover!(!in_range);
+    kani::cover!(a && g && !init_ok && v[0].is_finite() && v[1].is_finite() && v[2].is_nan()); // only the last element bad
+    kani::cover!(a && g && !init_ok && v[0] == f64::INFINITY); // first element +inf
+    kani::cover!(!a && g && init_ok); // only alpha bad
+}
+
+// @unit name=logistic_init_ix2_1x1_f32 class=bounded tier=quick bound="shape=1x1" fns=linfa_logistic::LogisticRegressionParams::check_ref,linfa_logistic::LogisticRegressionParams::check
+#[kani::proof]
+#[kani::unwind(5)]
+#[kani::stub(alloc::fmt::format, fmt_stub)]
+fn c04_logistic_init_ix2_1x1_f32() {
+    let (in_range, a, g, init_ok, v) = c04_logistic_init_ix2_n!(f32, 1, (1, 1));
+    kani::cover!(in_range);
+    kani::cover!(!in_range);
+    kani::cover!(a && g && !init_ok && true && v[0].is_nan()); // only the last element bad
+    kani::cover!(a && g && !init_ok && v[0] == f32::INFINITY); // first element +inf
+    kani::cover!(!a && g && init_ok); // only alpha bad
+}
+
+// @unit name=logistic_init_ix2_2x1_f32 class=bounded tier=quick bound="shape=2x1" fns=linfa_logistic::LogisticRegressionParams::check_ref,linfa_logistic::LogisticRegressionParams::check
+#[kani::proof]
+#[kani::unwind(5)]
+#[kani::stub(alloc::fmt::format, fmt_stub)]
+fn c04_logistic_init_ix2_2x1_f32() {
+    let (in_range, a, g, init_ok, v) = c04_logistic_init_ix2_n!(f32, 2, (2, 1));
+    kani::cover!(in_range);
+    kani::cover!(!in_range);
+    kani::cover!(a && g && !init_ok && v[0].is_finite() && v[1].is_nan()); // only the last element bad
+    kani::cover!(a && g && !init_ok && v[0] == f32::INFINITY); // first element +inf
+    kani::cover!(!a && g && init_ok); // only alpha bad
+}
+
+// @unit name=logistic_init_ix2_3x1_f32 class=bounded tier=quick bound="shape=3x1" fns=linfa_logistic::LogisticRegressionParams::check_ref,linfa_logistic::LogisticRegressionParams::check
+#[kani::proof]
+#[kani::unwind(5)]
+#[kani::stub(alloc::fmt::format, fmt_stub)]
+fn c04_logistic_init_ix2_3x1_f32() {
+    let (in_range, a, g, init_ok, v) = c04_logistic_init_ix2_n!(f32, 3, (3, 1));
+    kani::cover!(in_range);
+    kani::cover!(!in_range);
+    kani::cover!(a && g && !init_ok && v[0].is_finite() && v[1].is_finite() && v[2].is_nan()); // only the last element bad
+    kani::cover!(a && g && !init_ok && v[0] == f32::INFINITY); // first element +inf
+    kani::cover!(!a && g && init_ok); // only alpha bad
+}
+
+// @unit name=logistic_init_ix2_1x3_f32 class=bounded tier=quick bound="shape=1x3" fns=linfa_logistic::LogisticRegressionParams::check_ref,linfa_logistic::LogisticRegressionParams::check
+#[kani::proof]
+#[kani::unwind(5)]
+#[kani::stub(alloc::fmt::format, fmt_stub)]
+fn c04_logistic_init_ix2_1x3_f32() {
+    let (in_range, a, g, init_ok, v) = c04_logistic_init_ix2_n!(f32, 3, (1, 3));
+    kani::cover!(in_range);
+    kani::cover!(!in_range);
+    kani::cover!(a && g && !init_ok && v[0].is_finite() && v[1].is_finite() && v[2].is_nan()); // only the last element bad
+    kani::cover!(a && g && !init_ok && v[0] == f32::INFINITY); // first element +inf
+    kani::cover!(!a && g && init_ok); // only alpha bad
 }
